@@ -4,9 +4,9 @@ import Wal.Props.C04_Global
 # Position neutrality of every evaluation that does not execute `step` or `sample-at`
 
 `idxs st` is the list of (trace id, index) pairs of the loaded traces. For the restricted evaluator `evalN` (`Tid.evalT`
-— no `unload`, `set-scope`, `unset-scope` — without `step`, `sample-at` and `find`), started in a state whose trace ids
+— no `unload`, `set-scope`, `unset-scope` — without `step` and `sample-at`), started in a state whose trace ids
 are distinct: **every evaluation that completes leaves every trace index exactly where it was** — whatever it nests:
-relative evaluation, `whenever`, `find/g`, calls, scopes and groups, virtual signals, macro expansion, `eval` of computed
+relative evaluation, `find`, `whenever`, `find/g`, calls, scopes and groups, virtual signals, macro expansion, `eval` of computed
 code. Same scheme as `Bal.lean` / `Tid.lean`; the three cases that move traces (`reval`, `whenever`, `find/g`) are the
 theorems of `Props/C03_Global.lean` and `Props/C04_Global.lean`, which need of the sub-evaluation exactly what
 `Tid.lean` and `Bal.lean` provide.
@@ -779,20 +779,170 @@ theorem opDefmacro_N (n : Nat) (st st' : St) (args : List Sx) (v : Sx)
 
 
 
+/-! ## `find`: the loop moves one trace; the epilogue puts it back -/
+
+/-- the positions with the index of `tid` blanked out -/
+def mask (tid : String) (l : List (String × Int)) : List (String × Int) :=
+  l.map (fun p => if p.1 == tid then (p.1, (0 : Int)) else p)
+
+def setAt (tid : String) (i : Int) (l : List (String × Int)) : List (String × Int) :=
+  l.map (fun p => if p.1 == tid then (p.1, i) else p)
+
+omit hr in
+theorem setAt_mask (tid : String) (i : Int) (l : List (String × Int)) : setAt tid i (mask tid l) = setAt tid i l := by
+  simp only [setAt, mask, List.map_map]
+  apply List.map_congr_left
+  intro p _
+  simp only [Function.comp]
+  split <;> simp_all
+
+omit hr in
+theorem mask_updTrace (st : St) (tid : String) (f : Trace → Trace) (hf : ∀ t, t.tid = tid → (f t).tid = t.tid) :
+    mask tid (idxs (st.updTrace tid f).tc) = mask tid (idxs st.tc) := by
+  simp only [mask, idxs, indicesOf, St.updTrace, List.map_map]
+  apply List.map_congr_left
+  intro t _
+  simp only [Function.comp]
+  by_cases ht : (t.tid == tid) = true
+  · have ht' : t.tid = tid := by simpa using ht
+    have := hf t ht'
+    simp [ht, this]
+  · simp [ht]
+
+omit hr in
+theorem idxs_updTrace_index (st : St) (tid : String) (i : Int) :
+    idxs (st.updTrace tid (fun t => { t with index := i })).tc = setAt tid i (idxs st.tc) := by
+  simp only [setAt, idxs, indicesOf, St.updTrace, List.map_map]
+  apply List.map_congr_left
+  intro t _
+  simp only [Function.comp]
+  split <;> rfl
+
+omit hr in
+theorem Nd_updTrace (st : St) (tid : String) (f : Trace → Trace) (hf : ∀ t, t.tid = tid → (f t).tid = t.tid)
+    (hnd : Nd st.tc) : Nd (st.updTrace tid f).tc := by
+  rw [Nd_iff] at hnd ⊢
+  have := Tid.updTrace_tids st tid f hf
+  simp only [Tid.tids] at this
+  rw [this]; exact hnd
+
+omit hr in
+theorem setAt_cons (tid : String) (i : Int) (p : String × Int) (l : List (String × Int)) :
+    setAt tid i (p :: l) = (if p.1 == tid then (p.1, i) else p) :: setAt tid i l := rfl
+
+omit hr in
+theorem indicesOf_cons (x : Trace) (r : List Trace) : indicesOf (x :: r) = (x.tid, x.index) :: indicesOf r := rfl
+
+-- with distinct ids every entry for `tid` carries the index of the trace found under `tid`
+omit hr in
+theorem setAt_found (tid : String) (t : Trace) :
+    ∀ (L : List Trace), (L.map (·.tid)).Nodup → L.find? (fun x => x.tid == tid) = some t →
+      setAt tid t.index (indicesOf L) = indicesOf L := by
+  intro L
+  induction L with
+  | nil => intro _ h; simp at h
+  | cons x r ih =>
+    intro hnd hf
+    simp only [List.map_cons, List.nodup_cons] at hnd
+    simp only [List.find?_cons] at hf
+    split at hf
+    · rename_i hx
+      simp only [Option.some.injEq] at hf; subst hf
+      have hx' : x.tid = tid := by simpa using hx
+      have hr' : setAt tid x.index (indicesOf r) = indicesOf r := by
+        simp only [setAt, indicesOf, List.map_map]
+        conv => rhs; rw [← List.map_id (List.map (fun t => (t.tid, t.index)) r)]
+        simp only [List.map_map]
+        apply List.map_congr_left
+        intro y hy
+        have : y.tid ≠ tid := by
+          intro hc
+          exact hnd.1 (by rw [hx', ← hc]; exact List.mem_map_of_mem (f := (·.tid)) hy)
+        simp [this]
+      rw [indicesOf_cons, setAt_cons, hr']
+      congr 1
+      split <;> rfl
+    · rename_i hx
+      rw [indicesOf_cons, setAt_cons, ih hnd.2 hf]
+      congr 1
+      split
+      · rename_i h; simp only at h; rw [h] at hx; exact absurd hx (by simp)
+      · rfl
+
+/-- what the loop of `find` on `tid` keeps: every position but that of `tid`, and the ids -/
+def M (tid : String) (c c' : Container) : Prop := mask tid (idxs c') = mask tid (idxs c) ∧ Nd c'
+
+theorem findLoop_M (c : Sx) (tid : String) : ∀ (k : Nat) (st st' : St) (acc found : List Int),
+    findLoop rec c tid k st acc = .ok (found, st') → Nd st.tc → M tid st.tc st'.tc := by
+  intro k
+  induction k with
+  | zero => intro st st' acc found h; unfold findLoop at h; simp at h
+  | succ k ih =>
+    intro st st' acc found h hnd
+    unfold findLoop at h
+    simp only [bind, Except.bind] at h
+    repeat' (split at h)
+    all_goals try (simp at h; done)
+    all_goals first
+      | (rename_i v1 h1 _ t hf _ _
+         have e1 := hr _ _ _ _ h1 hnd
+         have hid : ∀ u : Trace, u.tid = tid → ((fun _ => (t.step 1).fst) u).tid = u.tid := by
+           intro u hu; simp only; rw [Tid.step_tid, Tid.find_tid _ _ _ hf, hu]
+         have hn2 := Nd_updTrace v1.2 tid _ hid e1.2
+         have e2 := ih _ _ _ _ h hn2
+         refine ⟨?_, e2.2⟩
+         rw [e2.1, mask_updTrace _ _ _ hid, e1.1])
+      | (rename_i v1 h1 _ t hf _ _
+         simp only [Except.ok.injEq, Prod.mk.injEq] at h; obtain ⟨_, hst⟩ := h; subst hst
+         have e1 := hr _ _ _ _ h1 hnd
+         exact ⟨by rw [e1.1], e1.2⟩)
+
+theorem findTraces_N (n : Nat) (c : Sx) : ∀ (tids : List String) (st st' : St) (acc found : List Int),
+    findTraces n rec c st tids acc = .ok (found, st') → Nd st.tc → NN st.tc st'.tc := by
+  have hl := findLoop_M rec hr c
+  intro tids
+  induction tids with
+  | nil =>
+    intro st st' acc found h hnd; unfold findTraces at h
+    simp only [Except.ok.injEq, Prod.mk.injEq] at h; obtain ⟨_, hst⟩ := h; subst hst; exact NN.refl _ hnd
+  | cons a as ih =>
+    intro st st' acc found h hnd
+    unfold findTraces at h
+    simp only [bind, Except.bind] at h
+    repeat' (split at h)
+    all_goals try (simp at h; done)
+    rename_i start hs _ r1 h1
+    have m1 := hl a n st r1.2 acc r1.1 h1 hnd
+    -- the trace found under `a` has index `start`
+    simp only [St.traceIdx, Option.map_eq_some_iff] at hs
+    obtain ⟨t, hft, hti⟩ := hs
+    have hidx : ∀ u : Trace, u.tid = a → ((fun u : Trace => { u with index := start }) u).tid = u.tid := fun _ _ => rfl
+    have hn2 : Nd (r1.2.updTrace a (fun u => { u with index := start })).tc := Nd_updTrace _ _ _ hidx m1.2
+    have hback : idxs (r1.2.updTrace a (fun u => { u with index := start })).tc = idxs st.tc := by
+      rw [idxs_updTrace_index, ← setAt_mask, m1.1, setAt_mask, ← hti]
+      exact setAt_found a t st.tc.traces ((Nd_iff st).1 hnd) hft
+    have e2 := ih _ _ _ _ h hn2
+    exact ⟨e2.1.trans hback, e2.2⟩
+
+theorem opFind_N (n : Nat) (st st' : St) (args : List Sx) (v : Sx) (h : opFind n rec st args = .ok (v, st')) (hnd : Nd st.tc) :
+    NN st.tc st'.tc := by
+  have hl := findTraces_N rec hr n
+  unfold opFind at h
+  opn_tac h
+
 end
 
-/-! ## the restricted evaluator: `Tid.dispatchT` without `step`, `sample-at` and `find` -/
+/-! ## the restricted evaluator: `Tid.dispatchT` without `step` and `sample-at` -/
 
 def dispatchN (n : Nat) (rec : St → Sx → Res) (st : St) (o : Op) (args : List Sx) : Res :=
   match o with
-  | .STEP | .SAMPLE_AT | .FIND => .error (.unsupported "an operation that moves the traces for good")
+  | .STEP | .SAMPLE_AT => .error (.unsupported "an operation that moves the traces for good")
   | o => Tid.dispatchT n rec st o args
 
 theorem dispatchN_subT (n : Nat) (rec : St → Sx → Res) (st : St) (o : Op) (args : List Sx) (r : Sx × St)
     (h : dispatchN n rec st o args = .ok r) : Tid.dispatchT n rec st o args = .ok r := by
   unfold dispatchN at h
   split at h
-  · simp at h
   · simp at h
   · simp at h
   · exact h
@@ -919,7 +1069,7 @@ theorem dispatchN_N (n : Nat) (st st' : St) (o : Op) (args : List Sx) (v : Sx)
   | IS_SIGNAL => exact opIsSignal_N rec hr  _ _ _ _ h hnd
   | REQUIRE => simp [dispatchN, Tid.dispatchT, Bal.dispatchR, dispatch] at h
   | EVAL_FILE => simp [dispatchN, Tid.dispatchT, Bal.dispatchR, dispatch] at h
-  | FIND => simp [dispatchN, Tid.dispatchT, Bal.dispatchR] at h
+  | FIND => exact opFind_N rec hr n _ _ _ _ h hnd
   | FIND_G => exact opFindG_N rec hr hT n _ _ _ _ h hnd
   | WHENEVER => exact opWhenever_N rec hr hT n _ _ _ _ h hnd
   | FOLD_SIGNAL => simp [dispatchN, Tid.dispatchT, Bal.dispatchR, dispatch] at h
@@ -969,7 +1119,7 @@ theorem evalN_all : ∀ (n : Nat) (st : St) (e v : Sx) (st' : St), evalN n st e 
       Bal.evalStepR_B (evalN n) hB n st st' e v (Tid.evalStepT_subR _ _ _ _ _ hsub),
       evalStepN_N (evalN n) hN hT hB n st st' e v h⟩
 
-/-- **every evaluation that completes without executing `step`, `sample-at`, `find`, `unload`, `set-scope` or
+/-- **every evaluation that completes without executing `step`, `sample-at`, `unload`, `set-scope` or
 `unset-scope` — whatever else it runs, to any depth — leaves every trace index exactly where it was** (loaded traces
 with distinct ids) -/
 theorem evalN_neutral (n : Nat) (st : St) (e v : Sx) (st' : St) (hnd : (st.tc.traces.map (·.tid)).Nodup)
